@@ -47,10 +47,16 @@ def _small_spec(keys, op, n, count_first, style=0, empty=False):
     fields = [text("k1"), text("k2"),
               {"name": "v", "empty": False, "length": "", "length_items": None, "type": "Choice", "rule": "x, y",
                "model": {"choices": ["x", "y"]}}]
-    unique = {"desc": "keys are unique", "type": "IsUnique", "rule": ", ".join(keys), "keys": list(keys)}
-    count = {"desc": "count of k1", "type": "DistinctCount", "rule": "k1 %s %s" % (op, gen_tables.spell_count(n, style)),
+    unique = {"desc": ["keys are unique", "keys are 100% unique", "keys %s {0}"][style % 3], "type": "IsUnique",
+              "rule": ", ".join(keys), "keys": list(keys)}
+    fmt["layout"] = [None, "early-checks", None, "both", "late-properties", None][style % 6]
+    count = {"desc": ["count of k1", "count of k1 (%d)", "50% of k1"][style // 3 % 3], "type": "DistinctCount", "rule": "k1 %s %s" % (op, gen_tables.spell_count(n, style)),
              "field": "k1", "op": op, "n": n}
-    return {"fmt": fmt, "fields": fields, "checks": [count, unique] if count_first else [unique, count]}
+    checks = [count, unique] if count_first else [unique, count]
+    if fmt["layout"] in ("early-checks", "both"):
+        # every check then stands behind the last field it names: the model follows the order of declaration
+        checks.sort(key=lambda c: gen_fields.last_named_field(["k1", "k2", "v"], c["rule"]))
+    return {"fmt": fmt, "fields": fields, "checks": checks}
 
 
 def _nontrivial(spec, rows, expected):
